@@ -1,4 +1,328 @@
-(* C04 - a built Partial is functools.partial; ArgFactory arguments are fresh per call. *)
-From Fiddle Require Import PyBase PySlice Sig ArgStore PyCall Heap Traverse Partial Anchors.
+(* C04 - a built Partial is functools.partial; ArgFactory arguments are fresh per call.
+   Model: theories/Partial.v (validated against the implementation by theories/C04Check.v).
+   Proofs: theories/Partial_proofs.v. *)
+From Fiddle Require Import PyBase PySlice Sig ArgStore PyCall Heap Traverse Partial Partial_proofs Anchors.
+From Coq Require Import List Arith.
+Import ListNotations.
+Local Open Scope nat_scope.
 
-Example C04_placeholder : True. Proof. exact I. Qed.
+(* ---- 1. calling a built partial only appends to the heap ---- *)
+
+Theorem C04_call_partial_appends : forall e fuel o p cpos ckw o' r,
+  call_partial e fuel o p cpos ckw = (o', r) -> exists ext, o' = o ++ ext.
+Proof. exact call_partial_appends. Qed.
+Print Assumptions C04_call_partial_appends.
+
+Theorem C04_invoke_arg_appends : forall e fuel o x o' r,
+  invoke_arg e fuel o x = (o', r) -> exists ext, o' = o ++ ext.
+Proof. exact invoke_arg_appends. Qed.
+Print Assumptions C04_invoke_arg_appends.
+
+Theorem C04_invoke_factory_appends : forall e fuel o g o' r,
+  invoke_factory e fuel o g = (o', r) -> exists ext, o' = o ++ ext.
+Proof. exact invoke_factory_appends. Qed.
+Print Assumptions C04_invoke_factory_appends.
+
+Theorem C04_invoke_struct_appends : forall e fuel o m x o' m' r,
+  invoke_struct e fuel o m x = (o', m', r) -> exists ext, o' = o ++ ext.
+Proof. exact invoke_struct_appends. Qed.
+Print Assumptions C04_invoke_struct_appends.
+
+Theorem C04_call_appends : forall e o p cpos ckw o' r,
+  call e o p cpos ckw = (o', r) -> exists ext, o' = o ++ ext.
+Proof. exact call_appends. Qed.
+Print Assumptions C04_call_appends.
+
+(* the configuration, the build-time objects and the objects of earlier calls are never modified,
+   whatever the outcome of the call *)
+Theorem C04_call_partial_frame : forall e fuel o p cpos ckw o' r,
+  call_partial e fuel o p cpos ckw = (o', r) ->
+  firstn (length o) o' = o /\ length o <= length o' /\
+  (forall i, i < length o -> nth_error o' i = nth_error o i).
+Proof. exact call_partial_frame. Qed.
+Print Assumptions C04_call_partial_frame.
+
+Theorem C04_call_frame : forall e o p cpos ckw o' r,
+  call e o p cpos ckw = (o', r) ->
+  firstn (length o) o' = o /\ length o <= length o' /\
+  (forall i, i < length o -> nth_error o' i = nth_error o i).
+Proof. exact call_frame. Qed.
+Print Assumptions C04_call_frame.
+
+(* two successive calls: the results are different fresh objects, and every node the second call
+   allocates has an id >= the size of the heap the first call left *)
+Theorem C04_two_calls_disjoint : forall e o p a1 k1 a2 k2 o1 r1 o2 r2,
+  call e o p a1 k1 = (o1, Some r1) -> call e o1 p a2 k2 = (o2, Some r2) ->
+  exists j1 j2, r1 = RP j1 /\ r2 = RP j2 /\
+    length o <= j1 /\ j1 < length o1 /\ length o1 <= j2 /\ j2 < length o2 /\ r1 <> r2 /\
+    firstn (length o1) o2 = o1 /\
+    (forall i, i < length o1 -> nth_error o2 i = nth_error o1 i) /\
+    (forall i n, nth_error o2 i = Some n -> nth_error o1 i = None -> length o1 <= i).
+Proof. exact two_calls_disjoint. Qed.
+Print Assumptions C04_two_calls_disjoint.
+
+(* ---- 2. the result of a successful call is a freshly allocated NObj ---- *)
+
+Theorem C04_call_partial_result : forall e fuel o p cpos ckw o' r,
+  call_partial e fuel o p cpos ckw = (o', Some r) ->
+  exists i fn pos kw vw,
+    p = RP i /\ nth_error o i = Some (NPartialObj fn pos kw) /\
+    r = RP (length o' - 1) /\ nth_error o' (length o' - 1) = Some (NObj fn vw) /\
+    length o <= length o' - 1.
+Proof. exact call_partial_result. Qed.
+Print Assumptions C04_call_partial_result.
+
+Theorem C04_call_result : forall e o p cpos ckw o' r,
+  call e o p cpos ckw = (o', Some r) ->
+  exists i fn pos kw vw,
+    p = RP i /\ nth_error o i = Some (NPartialObj fn pos kw) /\
+    r = RP (length o' - 1) /\ nth_error o' (length o' - 1) = Some (NObj fn vw) /\
+    length o <= length o' - 1.
+Proof. exact call_result. Qed.
+Print Assumptions C04_call_result.
+
+(* functools.partial: the callable is called with the bound positionals followed by the call-time
+   ones, and with the merged keywords (bound keyword order first) *)
+Theorem C04_call_partial_received : forall e fuel o p cpos ckw o' r i fn pos kw,
+  call_partial e fuel o p cpos ckw = (o', Some r) -> p = RP i ->
+  nth_error o i = Some (NPartialObj fn pos kw) ->
+  exists pos' kw' vw,
+    length pos' = length pos + length cpos /\
+    map fst kw' = map fst (merge_kw kw ckw) /\
+    py_call (sig_of e fn) pos' (map (fun kv => (KName (fst kv), snd kv)) kw') = Some vw /\
+    nth_error o' (length o' - 1) = Some (NObj fn vw).
+Proof. exact call_partial_received. Qed.
+Print Assumptions C04_call_partial_received.
+
+(* ---- 3. keyword override (functools.partial keyword merge) ---- *)
+
+Theorem C04_merge_kw_get : forall bound call k,
+  dget N.eqb (merge_kw bound call) k =
+  match dget N.eqb (rev call) k with Some v => Some v | None => dget N.eqb bound k end.
+Proof. exact merge_kw_get. Qed.
+Print Assumptions C04_merge_kw_get.
+
+Theorem C04_merge_kw_override : forall bound call k v,
+  NoDup (map fst call) -> In (k, v) call -> dget N.eqb (merge_kw bound call) k = Some v.
+Proof. exact merge_kw_override. Qed.
+Print Assumptions C04_merge_kw_override.
+
+Theorem C04_merge_kw_not_called : forall bound call k,
+  ~ In k (map fst call) -> dget N.eqb (merge_kw bound call) k = dget N.eqb bound k.
+Proof. exact merge_kw_not_called. Qed.
+Print Assumptions C04_merge_kw_not_called.
+
+Theorem C04_merge_kw_keys_prefix : forall bound call,
+  exists ext, map fst (merge_kw bound call) = map fst bound ++ ext /\
+              (forall k, In k ext -> In k (map fst call) /\ ~ In k (map fst bound)).
+Proof. exact merge_kw_keys_prefix. Qed.
+Print Assumptions C04_merge_kw_keys_prefix.
+
+Theorem C04_merge_kw_position : forall bound call i k,
+  nth_error (map fst bound) i = Some k -> nth_error (map fst (merge_kw bound call)) i = Some k.
+Proof. exact merge_kw_position. Qed.
+Print Assumptions C04_merge_kw_position.
+
+Theorem C04_merge_kw_keys_nodup : forall bound call,
+  NoDup (map fst bound) -> NoDup (map fst (merge_kw bound call)).
+Proof. exact merge_kw_keys_nodup. Qed.
+Print Assumptions C04_merge_kw_keys_nodup.
+
+(* ---- 4. arguments without factories keep their build-time identity ---- *)
+
+Theorem C04_invoke_arg_passthrough : forall e fuel o x,
+  0 < fuel -> contains_factory e (S (length o)) o x = false ->
+  invoke_arg e fuel o x = (o, Some x).
+Proof. exact invoke_arg_passthrough. Qed.
+Print Assumptions C04_invoke_arg_passthrough.
+
+Theorem C04_invoke_arg_not_wrapper : forall e f o x,
+  is_wrapper o x = false -> invoke_arg e (S f) o x = (o, Some x).
+Proof. exact invoke_arg_not_wrapper. Qed.
+Print Assumptions C04_invoke_arg_not_wrapper.
+
+(* no copy of a structure that holds no factory (struct_fuel (RP i) = i + 2, struct_fuel (RA _) = 1) *)
+Theorem C04_invoke_struct_passthrough : forall e o fuel x,
+  wf_b e o = true -> struct_fuel x <= fuel ->
+  contains_factory e (S (length o)) o x = false ->
+  exists m', invoke_struct e fuel o [] x = (o, m', Some x).
+Proof. exact invoke_struct_passthrough. Qed.
+Print Assumptions C04_invoke_struct_passthrough.
+
+(* fuel = id + 1 is not enough *)
+Example C04_invoke_struct_fuel_tight :
+  invoke_struct [] 1 [NList [RA (AInt 1%Z)]] [] (RP 0) = ([NList [RA (AInt 1%Z)]], [], None) /\
+  invoke_struct [] 2 [NList [RA (AInt 1%Z)]] [] (RP 0)
+    = ([NList [RA (AInt 1%Z)]], [(0, RP 0)], Some (RP 0)).
+Proof. exact invoke_struct_fuel_tight. Qed.
+Print Assumptions C04_invoke_struct_fuel_tight.
+
+(* ---- 5. bind_arg: a new wrapper per binding ---- *)
+
+Theorem C04_bind_arg_factory : forall e o r o' r' i n t f,
+  bind_arg e o r = (o', r') -> r = RP i -> nth_error o i = Some n -> factory_of n = Some (t, f) ->
+  r' = RP (length o) /\ o' = o ++ [mk_factory 2 f].
+Proof. exact bind_arg_factory_inv. Qed.
+Print Assumptions C04_bind_arg_factory.
+
+Theorem C04_bind_arg_plain : forall e o r,
+  contains_factory e (S (length o)) o r = false -> bind_arg e o r = (o, r).
+Proof. exact bind_arg_plain. Qed.
+Print Assumptions C04_bind_arg_plain.
+
+Theorem C04_bind_arg_container : forall e o i n,
+  nth_error o i = Some n -> factory_of n = None ->
+  contains_factory e (S (length o)) o (RP i) = true ->
+  bind_arg e o (RP i) = (o ++ [mk_factory 3 (RP i)], RP (length o)).
+Proof. exact bind_arg_container. Qed.
+Print Assumptions C04_bind_arg_container.
+
+Theorem C04_bind_arg_twice_distinct : forall e o i n t f o1 r1 o2 r2,
+  nth_error o i = Some n -> factory_of n = Some (t, f) ->
+  bind_arg e o (RP i) = (o1, r1) -> bind_arg e o1 (RP i) = (o2, r2) ->
+  r1 = RP (length o) /\ r2 = RP (S (length o)) /\ r1 <> r2 /\
+  o2 = o ++ [mk_factory 2 f; mk_factory 2 f].
+Proof. exact bind_arg_twice_distinct. Qed.
+Print Assumptions C04_bind_arg_twice_distinct.
+
+Theorem C04_bind_arg_appends : forall e o r o' r',
+  bind_arg e o r = (o', r') -> exists ext, o' = o ++ ext.
+Proof. exact bind_arg_appends. Qed.
+Print Assumptions C04_bind_arg_appends.
+
+(* ---- 7. ArgFactory arguments are fresh per call ---- *)
+(* extends o o' := exists ext, o' = o ++ ext;
+   arg_rel o o' x x': how the argument x of a call that starts in heap o and ends in heap o' is
+   received; in_base o x: x is an atom or points into o;
+   wrappers_ok_b e o: every container wrapper NNamedTuple FACTORY [(3, c)] of o wraps a container c
+   that holds a factory (the only way bind_arg makes one, cf. C04_bind_arg_container). *)
+Theorem C04_arg_rel_def : forall o o' x x',
+  arg_rel o o' x x' <->
+  (if is_wrapper o x then exists j, x' = RP j /\ length o <= j /\ j < length o' else x' = x).
+Proof. exact arg_rel_def. Qed.
+Print Assumptions C04_arg_rel_def.
+
+Theorem C04_in_base_def : forall o x,
+  in_base o x <-> match x with RA _ => True | RP i => i < length o end.
+Proof. exact in_base_def. Qed.
+Print Assumptions C04_in_base_def.
+
+Theorem C04_wrappers_ok_b_def : forall e o,
+  wrappers_ok_b e o =
+  forallb (fun n => match factory_of n with
+                    | Some (t, g) => if N.eqb t 3 then contains_factory e (S (length o)) o g else true
+                    | None => true
+                    end) o.
+Proof. reflexivity. Qed.
+Print Assumptions C04_wrappers_ok_b_def.
+
+(* every argument bound through a factory wrapper (an ArgFactory, or a container holding one) is
+   received as an object allocated by this very call; every other argument is received unchanged *)
+Theorem C04_call_partial_args_fresh : forall e fuel o p cpos ckw o' r i fn pos kw,
+  wf_b e o = true -> wrappers_ok_b e o = true ->
+  Forall (in_base o) cpos -> Forall (in_base o) (map snd ckw) ->
+  p = RP i -> nth_error o i = Some (NPartialObj fn pos kw) ->
+  call_partial e fuel o p cpos ckw = (o', Some r) ->
+  exists pos' kw' vw,
+    Forall2 (arg_rel o o') (pos ++ cpos) pos' /\
+    Forall2 (fun a b => fst a = fst b /\ arg_rel o o' (snd a) (snd b)) (merge_kw kw ckw) kw' /\
+    py_call (sig_of e fn) pos' (map (fun kv => (KName (fst kv), snd kv)) kw') = Some vw /\
+    r = RP (length o' - 1) /\ nth_error o' (length o' - 1) = Some (NObj fn vw).
+Proof. exact call_partial_args_fresh. Qed.
+Print Assumptions C04_call_partial_args_fresh.
+
+Theorem C04_call_args_fresh : forall e o p cpos ckw o' r i fn pos kw,
+  wf_b e o = true -> wrappers_ok_b e o = true ->
+  Forall (in_base o) cpos -> Forall (in_base o) (map snd ckw) ->
+  p = RP i -> nth_error o i = Some (NPartialObj fn pos kw) ->
+  call e o p cpos ckw = (o', Some r) ->
+  exists pos' kw' vw,
+    Forall2 (arg_rel o o') (pos ++ cpos) pos' /\
+    Forall2 (fun a b => fst a = fst b /\ arg_rel o o' (snd a) (snd b)) (merge_kw kw ckw) kw' /\
+    py_call (sig_of e fn) pos' (map (fun kv => (KName (fst kv), snd kv)) kw') = Some vw /\
+    r = RP (length o' - 1) /\ nth_error o' (length o' - 1) = Some (NObj fn vw).
+Proof. exact call_args_fresh. Qed.
+Print Assumptions C04_call_args_fresh.
+
+(* the copy made for a promoted container: a part that holds a factory is replaced by an object of
+   this call, a part that holds none is shared with build time *)
+Theorem C04_invoke_struct_elements : forall e o0 fuel o x o' m' r,
+  wf_b e o0 = true -> wrappers_ok_b e o0 = true -> extends o0 o -> in_base o0 x ->
+  invoke_struct e fuel o [] x = (o', m', Some r) ->
+  if contains_factory e (S (length o0)) o0 x
+  then exists j, r = RP j /\ length o0 <= j /\ j < length o'
+  else r = x.
+Proof. exact invoke_struct_elements. Qed.
+Print Assumptions C04_invoke_struct_elements.
+
+Theorem C04_invoke_factory_fresh : forall e fuel o g o' r,
+  invoke_factory e fuel o g = (o', Some r) ->
+  exists j, r = RP j /\ length o <= j /\ j < length o'.
+Proof. exact invoke_factory_fresh. Qed.
+Print Assumptions C04_invoke_factory_fresh.
+
+(* the hypotheses hold for the example below, after the build and after a call *)
+Example C04_example_hyps :
+  let o := out (fst (pbuild ex_env ex_heap (RP 4))) in
+  wf_b ex_env o = true /\ wrappers_ok_b ex_env o = true /\
+  let o1 := fst (call ex_env o (RP 11) [] []) in
+  wf_b ex_env o1 = true /\ wrappers_ok_b ex_env o1 = true.
+Proof. exact example_hyps. Qed.
+Print Assumptions C04_example_hyps.
+
+(* ---- 8. the binding step of the build keeps the hypotheses of C04_call_args_fresh ---- *)
+Theorem C04_bind_arg_preserves : forall e o r o' r',
+  wf_b e o = true -> wrappers_ok_b e o = true -> in_base o r ->
+  bind_arg e o r = (o', r') ->
+  wf_b e o' = true /\ wrappers_ok_b e o' = true /\ in_base o' r' /\
+  (is_wrapper o' r' = true \/ (o' = o /\ r' = r /\ contains_factory e (S (length o)) o r = false)).
+Proof. exact bind_arg_preserves. Qed.
+Print Assumptions C04_bind_arg_preserves.
+
+Theorem C04_promote_all_preserves : forall e rs o o' rs',
+  wf_b e o = true -> wrappers_ok_b e o = true -> Forall (in_base o) rs ->
+  promote_all e o rs = (o', rs') ->
+  wf_b e o' = true /\ wrappers_ok_b e o' = true /\ extends o o' /\ Forall (in_base o') rs'.
+Proof. exact promote_all_preserves. Qed.
+Print Assumptions C04_promote_all_preserves.
+
+Theorem C04_promote_kw_preserves : forall e kw o o' kw',
+  wf_b e o = true -> wrappers_ok_b e o = true -> Forall (in_base o) (map snd kw) ->
+  promote_kw e o kw = (o', kw') ->
+  wf_b e o' = true /\ wrappers_ok_b e o' = true /\ extends o o' /\
+  Forall (in_base o') (map snd kw') /\ map fst kw' = map fst kw.
+Proof. exact promote_kw_preserves. Qed.
+Print Assumptions C04_promote_kw_preserves.
+
+(* ---- 6. non-vacuity ---- *)
+(* Partial(f, x=ArgFactory(g), y=[ArgFactory(g), Config(h)]) built and called twice: different
+   objects for x and for y[0], the same (build-time) object for y[1]; a call-time keyword
+   overrides the bound factory. *)
+Example C04_two_calls_example :
+  wf_b ex_env ex_heap = true /\
+  let b := pbuild ex_env ex_heap (RP 4) in
+  let o := out (fst b) in
+  snd b = inl (RP 11) /\ length o = 12 /\
+  nth_error o 11 = Some (NPartialObj 10%N [] [(1%N, RP 9); (2%N, RP 10)]) /\
+  nth_error o 9 = Some (mk_factory 2 (RA (ASym 20%N))) /\
+  nth_error o 10 = Some (mk_factory 3 (RP 8)) /\
+  nth_error o 8 = Some (NList [RP 6; RP 7]) /\
+  nth_error o 6 = Some (mk_factory 0 (RA (ASym 20%N))) /\
+  nth_error o 7 = Some (NObj 30%N []) /\
+  let c1 := call ex_env o (RP 11) [] [] in
+  let c2 := call ex_env (fst c1) (RP 11) [] [] in
+  let o2 := fst c2 in
+  snd c1 = Some (RP 15) /\ snd c2 = Some (RP 19) /\
+  nth_error o2 15 = Some (NObj 10%N [(1%N, PV (RP 12)); (2%N, PV (RP 14))]) /\
+  nth_error o2 19 = Some (NObj 10%N [(1%N, PV (RP 16)); (2%N, PV (RP 18))]) /\
+  nth_error o2 12 = Some (NObj 20%N []) /\ nth_error o2 16 = Some (NObj 20%N []) /\
+  nth_error o2 14 = Some (NList [RP 13; RP 7]) /\ nth_error o2 18 = Some (NList [RP 17; RP 7]) /\
+  nth_error o2 13 = Some (NObj 20%N []) /\ nth_error o2 17 = Some (NObj 20%N []) /\
+  nth_error o2 7 = Some (NObj 30%N []) /\
+  firstn 12 o2 = o /\
+  let c3 := call ex_env o (RP 11) [] [(1%N, RA (AInt 5%Z))] in
+  snd c3 = Some (RP 14) /\
+  nth_error (fst c3) 14 = Some (NObj 10%N [(1%N, PV (RA (AInt 5%Z))); (2%N, PV (RP 13))]) /\
+  nth_error (fst c3) 13 = Some (NList [RP 12; RP 7]).
+Proof. exact two_calls_example. Qed.
+Print Assumptions C04_two_calls_example.
